@@ -156,7 +156,7 @@ Qed.
 
 Lemma sgr_seq_closed m : sgr_seq m -> closed m.
 Proof.
-  intros (ds & _ & Hds & ->). unfold closed. cbn [danglingb partialb].
+  intros (ds & Hds & ->). unfold closed. cbn [danglingb partialb].
   rewrite !N.eqb_refl. cbn [andb]. rewrite forallb_app. cbn [forallb]. rewrite is_param_m, !andb_false_r.
   change (c_lbr =? c_esc)%N with false. cbn [andb orb]. apply esc_free_closed. intros H.
   apply in_app_or in H as [H|[H|[]]]; [|discriminate].
